@@ -111,3 +111,92 @@ func c16ErrorBurst(r *Run, h int) {
 		}
 	}
 }
+
+// c16SilentSchema: a reconnect attempt that meets a peer which accepts the connection and then says nothing to
+// the schema request (the connection stays open). The attempt has a time limit; the client gives it up, tries
+// again, and ends up with the database's contents.
+func c16SilentSchema(r *Run, h int) {
+	rng := r.Rng
+	ts := c18Schema()
+	rig, err := newRig(ts)
+	if err != nil {
+		return
+	}
+	defer rig.Close()
+	px, err := newProxy(rig.sock)
+	if err != nil {
+		return
+	}
+	defer px.Close()
+	ctx, cancel := ctxT(60 * time.Second)
+	defer cancel()
+	row := pairRow(0)
+	row["key"] = VA(AS("r1"))
+	rig.im.transact([]OperationJ{{Op: "insert", Table: "Pair", UUID: mkUUID(1), Row: row}}, nil)
+	writer, _, err := rig.newClient(rig.endpoint())
+	if err != nil || writer.Connect(ctx) != nil {
+		return
+	}
+	defer writer.Close()
+	var mu sync.Mutex
+	silentFrom, silentN := -1, 1+rng.Intn(2) // the sessions whose schema request gets no answer
+	swallow := []string{"get_schema", "monitor_cond_since", "monitor_cond", "monitor"}[rng.Intn(2)*rng.Intn(4)]
+	px.rewrite = func(session int, toClient bool, raw json.RawMessage) json.RawMessage {
+		if toClient {
+			return raw
+		}
+		mu.Lock()
+		quiet := silentFrom >= 0 && session >= silentFrom && session < silentFrom+silentN
+		mu.Unlock()
+		var msg struct {
+			Method string `json:"method"`
+		}
+		if quiet && json.Unmarshal(raw, &msg) == nil && msg.Method == swallow {
+			return nil
+		}
+		return raw
+	}
+	timeout := time.Duration(200+rng.Intn(300)) * time.Millisecond
+	a, adb, err := rig.newClient(px.endpoint(), client.WithReconnect(timeout, backoff.NewConstantBackOff(3*time.Millisecond)))
+	if err != nil || a.Connect(ctx) != nil {
+		return
+	}
+	defer a.Close()
+	method := monitorMethods[rng.Intn(3)]
+	if _, err := a.Monitor(ctx, &client.Monitor{Method: method, Tables: []client.TableMonitor{{Table: "Pair"}}, LastTransactionID: "00000000-0000-0000-0000-000000000000"}); err != nil {
+		return
+	}
+	cs := map[string]interface{}{"run": h, "method": method, "attempt_timeout_ms": timeout.Milliseconds(), "unanswered": swallow, "silent_attempts": silentN}
+	r.Case("silent-attempt", fmt.Sprint(h, method, swallow, silentN))
+	mu.Lock()
+	silentFrom = px.sessionCount()
+	mu.Unlock()
+	px.cutNow()
+	k := int64(100*h + 1)
+	wctx, wc := ctxT(5 * time.Second)
+	_, _ = writer.Transact(wctx, OperationJ{Op: "update", Table: "Pair", Where: byUUID(mkUUID(1)), Row: pairRow(k)}.toOvs())
+	wc()
+	ok := false
+	for deadline := time.Now().Add(10 * time.Second); time.Now().Before(deadline) && !ok; {
+		m := adb.NewModel("Pair", mkUUID(1), nil)
+		gctx, gc := ctxT(time.Second)
+		done := make(chan error, 1)
+		go func() { done <- a.Get(gctx, m) }()
+		select {
+		case err := <-done:
+			if err == nil {
+				_, rowNow := adb.RowOf("Pair", m)
+				ok = rowNow["n"] != nil && rowNow["n"].K == 'a' && rowNow["n"].A.I == k
+			}
+		case <-time.After(4 * time.Second):
+		}
+		gc()
+		if !ok {
+			time.Sleep(5 * time.Millisecond)
+		}
+	}
+	if !ok {
+		r.Violation("silent-attempt", cs, fmt.Sprintf("the committed change is not in the cache after 10s (sessions opened: %d)", px.sessionCount()), "the committed change in the cache", true,
+			"a reconnect attempt that got no answer was never given up: the client does not come back although the server answers new connections", "")
+	}
+}
